@@ -1,6 +1,6 @@
 (* C08 - The table manager's log records exactly what was played (every schedule).
    Only statements, each closed by [exact]; proofs are in the files imported below. *)
-From BE Require Import Model.Session Model.SessionTie Spec.SessionSpec Proofs.Kahn Proofs.Session Proofs.SessionExamples Model.Conform Model.Json Proofs.RecordSpec Proofs.SessionPassOut Proofs.Wire Proofs.SessionConform Proofs.SessionConformLog Gen.JsonFns Proofs.JsonGen Gen.ScoreFns Proofs.ScoreGen.
+From BE Require Import Model.Session Model.SessionTie Spec.SessionSpec Proofs.Kahn Proofs.Session Proofs.SessionExamples Model.Conform Model.Json Proofs.RecordSpec Proofs.SessionPassOut Proofs.Wire Proofs.SessionConform Proofs.SessionConformLog Proofs.SessionAdmission Proofs.SessionArrivals Proofs.SessionArrivalsCor Gen.JsonFns Proofs.JsonGen Gen.ScoreFns Proofs.ScoreGen.
 From BE Require Import Gen.Skeleton Proofs.SkeletonPin.
 From Coq Require Import ZArith.
 Local Open Scope nat_scope.
@@ -8,9 +8,10 @@ Local Open Scope list_scope.
 (* FULL STATEMENT, PROVED (C08_conforming_session_log_is_the_reference / _every_schedule, Proofs/SessionConformLog.v): for
    every non-empty board list and every conforming behaviour of the four clients, under EVERY schedule the log is
    open ; one record per board, in order ; close, and each record is, as a JSON value, record_spec of the sequential reference
-   (the boards and what the players said, by the Laws / play reference / Law 77 formulas of Spec/).  Clients connect in the
-   order N, E, S, W in these theorems; for other arrival orders and extra requests the schedule-independence theorem plus the
-   per-session evaluation decide (suffix _partial). *)
+   (the boards and what the players said, by the Laws / play reference / Law 77 formulas of Spec/).  First proved for clients
+   connecting in the order N, E, S, W (the C08_conforming_session_log theorems), then lifted to EVERY list of requests that fills the table -
+   any order, with wrong versions, duplicates and mismatching partners turned away in between and late requests ignored -
+   by embedding the four-connection network into the n-connection one (C08_any_arrivals_log_is_the_reference). *)
 (* every channel of the session network has one reader and one writer, for every input and every message that might arrive *)
 Theorem C08_ownership :
   forall x, wf_state msg (rd x) (wr x) cw (init_state x).
@@ -102,6 +103,26 @@ Theorem C08_conforming_session_log_every_schedule :
       length l' <= n /\ (sfinal s' -> s' = f).
 Proof. exact conforming_session_log_every_schedule. Qed.
 Print Assumptions C08_conforming_session_log_every_schedule.
+
+(* FULL for every request list that fills the table (any order, refusals in between, late requests): under every schedule the log is the reference record of every board - and every seated connection is sent the reference view of its seat *)
+Theorem C08_any_arrivals_log_is_the_reference :
+  forall x : session,
+  let reqs := s_arrivals x in let n := nconn x in
+  let T := seat_requests reqs empty_table in
+  let ns := names_of T North in let ew := names_of T East in
+  s_boards x <> [] -> s_interrupt x = None -> wf_requests reqs -> all_seated T = true ->
+  conforming (s_boards x) (seated_scripts x) = true ->
+  exists f N, sfinal f /\
+    (forall l' s', srun l' (init_state x) = Some s' -> length l' <= N /\ (sfinal s' -> s' = f /\ length l' = N)) /\
+    (exists recs, log_events n f = LOpen :: map LRec recs ++ [LClose] /\
+       map record_json recs =
+       map (fun '(j, b) => SS.record_spec ns ew (RS.sboard_of b)
+                             (SS.play_board (RS.sboard_of b) (fun p => RS.said_of (nth_script (seated_scripts x p) j))))
+           (combine (seq 0 (length (s_boards x))) (s_boards x))) /\
+    (forall p, lines_of (chan f (tr_down n (conn_map reqs p))) =
+               SS.view_spec (match side_of p with NS => ns | EW => ew end) ns ew (outs_of (s_boards x) (seated_scripts x) 0) p).
+Proof. exact any_arrivals_log_and_views_are_the_reference. Qed.
+Print Assumptions C08_any_arrivals_log_is_the_reference.
 
 (* calc_score REGENERATED from score.py on every run (with the numbers re-read from the source) equals the scoring function the session model uses *)
 Theorem C08_generated_score_is_hand_model :
